@@ -16,7 +16,7 @@ for f in benign/*.diff; do
   b=$(basename "$f"); p=${b%%-*}
   if [ -n "$props" ] && ! echo " $props " | grep -q " $p "; then continue; fi
   also=""
-  case $p in C08) also=C09;; C09) also=C08;; C03) also="C04 C05 C06";; C04) also="C03 C06";; C05) also="C08 C09 C03 C13";; C06) also="C03 C04";; C13) also=C12;; C12) also=C13;; C14) also=C15;; C15) also="C14 C13";; C17) also=C18;; esac
+  case $p in C08) also=C09;; C09) also=C08;; C03) also="C04 C05 C06";; C04) also="C03 C06";; C05) also="C08 C09 C03 C13";; C06) also="C03 C04";; C13) also=C12;; C12) also="C13 C01 C05";; C14) also="C15 C04 C05 C13";; C15) also="C14 C13";; C17) also=C18;; esac
   for q in $p $also; do echo "$f $q" >> "$list"; done
 done
 res=$(xargs -a "$list" -P "${VERIF_JOBS:-6}" -L 1 bash -c 'one "$0" "$1"')
